@@ -78,7 +78,10 @@ pub fn bb_build_script(case: &BbCase, i: usize) -> String {
         ));
     }
     let e = case.exit_code.get(i).copied().unwrap_or(0);
-    if e != 0 {
+    if e == 254 {
+        // the script's own shell dies from a signal
+        s.push_str("kill -9 $$\n");
+    } else if e != 0 {
         s.push_str(&format!("exit {}\n", e));
     }
     s.push_str(&format!("echo \"F {} $$\" >> \"$ZV_TRACE\"", id));
@@ -338,7 +341,7 @@ pub fn bb_case(p: BbParams) -> impl Strategy<Value = BbCase> {
             let exit_code = (0..n)
                 .map(|i| {
                     if p.failures && graph.targets[i].kind == Kind::Build && fail[i] >= 215 {
-                        [1u8, 2, 3, 126, 127, 130, 255][(fail[i] as usize) % 7]
+                        [1u8, 2, 3, 126, 127, 130, 255, 254, 254][(fail[i] as usize) % 9]
                     } else {
                         0
                     }
